@@ -416,6 +416,9 @@ SWEEP_CONSTRUCTS = [
     ("set", "    set acc %(I)s\n"),
     ("push-float", "    set xs (array_push xs %(F)s)\n"),
     ("push-int", "    set ys (array_push ys %(I)s)\n"),
+    # the same lowering outside a `set` statement (a defect of `set` itself must not hide one of array_push)
+    ("push-float-in-let", "    let zs: array<float> = (array_push xs %(F)s)\n    set acc (array_length zs)\n"),
+    ("push-int-in-let", "    let n2: int = (array_length (array_push ys %(I)s))\n    set acc n2\n"),
     ("let", "    let y: int = %(I)s\n    set acc y\n"),
     ("call-arg", "    set acc (helper %(I)s)\n"),
     ("array-set", "    (array_set ys 0 %(I)s)\n"),
@@ -1323,7 +1326,8 @@ def run(ctx):
         results = results + phase(second, max(0, n_vg - share1))
 
         # phase 3: the two constructed families (reduced configuration sets, no memcheck: asan names a cause when they differ)
-        fam = _sweep_programs(ctx.n(40, 70), SWEEP_CFGS if quick else SWEEP_CFGS_THOROUGH) + _impure_programs()
+        fam = _sweep_programs(ctx.n(40, 70), SWEEP_CFGS if quick else SWEEP_CFGS_THOROUGH,
+                              ("first",) if quick else ("first", "last")) + _impure_programs()
         results = results + phase(fam, 0)
 
         # ---- verdicts -------------------------------------------------------------------------------------
